@@ -756,7 +756,7 @@ def rows_canon(rows, ids):
 
 # ------------------------------------------------------------------ running the real application with a merged trace
 def run_real(site, opts, seed, concurrent, start_urls=None, workdir=None, db=None, kill_at=None, first_run=True,
-             extra=(), event_sink=None, on_request=None, run_index=0, on_app=None):
+             extra=(), event_sink=None, on_request=None, run_index=0, on_app=None, max_steps=None):
     """Run the real crawler; returns (CrawlResult, merged events).
     `event_sink(ev)` is called for every merged event as it happens (kill runs log to a file)."""
     import wpull.processor.web as pw
@@ -813,7 +813,8 @@ def run_real(site, opts, seed, concurrent, start_urls=None, workdir=None, db=Non
         res = appsim.run_crawl(urls, site.to_server(run_index), seed=seed,
                                concurrent=concurrent, extra=xargs,
                                on_table_event=on_table, workdir=workdir, keep_db=db, on_request=on_request, on_app=on_app,
-                               relative_paths=bool(opts.get('relative_paths')) and workdir is not None)
+                               relative_paths=bool(opts.get('relative_paths')) and workdir is not None,
+                               **({'max_steps': max_steps} if max_steps else {}))
     finally:
         if tmp_input:
             os.unlink(tmp_input)
